@@ -1,6 +1,7 @@
 //! C04 — native-field gadgets are complete and sound w.r.t. their mathematical meaning.
 
 mod ops;
+mod scratch;
 
 use std::{collections::HashMap, sync::Mutex};
 
@@ -110,6 +111,16 @@ fn op_list(tier: Tier, seed: u64) -> Vec<Op> {
         v.push(DivRem(d.clone(), bound.clone()));
         v.push(Rem(d, bound));
     }
+    // sequences on one cell: looser-then-tighter, tighter-then-looser, equal bounds
+    for (b1, b2) in [(1000u32, 10u32), (10, 1000), (256, 16), (16, 256), (100, 100), (255, 256), (257, 256), (65536, 255)] {
+        v.push(RangeSeq(BigUint::from(b1), BigUint::from(b2)));
+    }
+    for (nb, b) in [(2usize, 10u32), (1, 1000), (2, 65536), (2, 300), (1, 256), (1, 255)] {
+        v.push(BytesThenRange(nb, BigUint::from(b)));
+    }
+    for (b, k) in [(1000u32, 8u32), (300, 8), (256, 8), (100, 8), (70000, 16)] {
+        v.push(RangeThenLowerThan(BigUint::from(b), k));
+    }
     if tier.is_thorough() {
         v.push(Pow(255));
         v.push(Pow(u64::MAX));
@@ -125,6 +136,9 @@ fn op_ks(op: &Op) -> Vec<u32> {
         ToLeBytes(Some(k)) | ToBeBytes(Some(k)) => vec![8 * *k as u32],
         ToLeChunks(b, Some(n)) => vec![(*b * *n) as u32],
         AssertLowerThanFixed(b) | AssignLowerThanFixed(b) => vec![b.bits() as u32, (b.bits() as u32).saturating_sub(1)],
+        RangeSeq(a, b) => vec![a.bits() as u32, (a.bits() as u32).saturating_sub(1), b.bits() as u32, (b.bits() as u32).saturating_sub(1)],
+        BytesThenRange(nb, b) => vec![8 * *nb as u32, b.bits() as u32, (b.bits() as u32).saturating_sub(1)],
+        RangeThenLowerThan(b, k) => vec![*k, b.bits() as u32, (b.bits() as u32).saturating_sub(1)],
         LowerThan(k) => vec![*k],
         NativeToBit => vec![1],
         NativeToByte => vec![8],
@@ -180,7 +194,35 @@ fn inputs_for(op: &Op, tier: Tier, seed: u64) -> Vec<Vec<V>> {
         }
         _ => {}
     }
-    let alph_n: Vec<V> = native_alphabet(&op_ks(op), tier.pick(1, 2), seed, "c04-native").into_iter().map(|(_, v)| V::N(v)).collect();
+    let mut alph_n: Vec<V> = native_alphabet(&op_ks(op), tier.pick(1, 2), seed, "c04-native").into_iter().map(|(_, v)| V::N(v)).collect();
+    {
+        // values at, just below and between the fixed bounds of the operation
+        let mut extra: Vec<BigUint> = vec![];
+        match op {
+            RangeSeq(a, b) => {
+                for t in [a.clone(), b.clone()] {
+                    extra.extend([&t - 1u32, t.clone(), &t + 1u32, &t / 2u32]);
+                }
+                extra.push((a + b) / 2u32);
+            }
+            BytesThenRange(nb, b) => {
+                let p2 = BigUint::one() << (8 * *nb);
+                extra.extend([b - 1u32, b.clone(), b + 1u32, &p2 - 1u32, p2.clone(), (b + &p2) / 2u32]);
+            }
+            RangeThenLowerThan(b, k) => {
+                let p2 = BigUint::one() << *k;
+                extra.extend([b - 1u32, b.clone(), &p2 - 1u32, p2.clone(), &p2 + 20u32, (b + &p2) / 2u32]);
+            }
+            AssertLowerThanFixed(b) | AssignLowerThanFixed(b) => extra.extend([b - 1u32, b.clone()]),
+            _ => {}
+        }
+        for e in extra {
+            let v = V::N(from_big(&e));
+            if !alph_n.contains(&v) {
+                alph_n.push(v);
+            }
+        }
+    }
     let alph_b = vec![V::B(false), V::B(true)];
     let alph_y: Vec<V> = [0u8, 1, 127, 128, 255, 0x5a].into_iter().map(V::Y).collect();
     let alph = |t: &Ty| match t {
@@ -355,6 +397,83 @@ fn main() {
         vgad::explore_pairs(c, kof(c).unwrap(), pairs, &f2, &mut out);
         out
     });
+    // ---- NativeGadget-only operations (bounded comparisons) through the FromScratch circuit
+    {
+        use scratch::{SCase, SOp};
+        use vgad::{Scratch, ScratchCase};
+        let mut scases: Vec<(String, Scratch<SCase>)> = vec![];
+        for op in scratch::sop_list() {
+            for ins in scratch::inputs_for(&op, seed, tier.is_thorough()) {
+                let c = SCase { op: op.clone(), ins };
+                let k = c.key();
+                if !scases.iter().any(|(kk, _)| *kk == k) {
+                    scases.push((k, Scratch(c)));
+                }
+            }
+        }
+        // k per operation: the smallest k at which an in-domain case of that operation synthesises,
+        // then the maximum over all operations (one fixed configuration, so one k fits all)
+        let mut sk = 0u32;
+        let mut seen_k_ops: std::collections::HashSet<String> = Default::default();
+        for (_, c) in &scases {
+            if c.0.expect_sat() && seen_k_ops.insert(format!("{:?}", c.0.op)) {
+                match vgad::scratch_min_k(&c.0, 6, 13) {
+                    Some(k) => sk = sk.max(k),
+                    None => cx.machinery_error(format!("from-scratch circuit of {:?} does not fit k <= 13", c.0.op)),
+                }
+            }
+        }
+        cx.extra("scratch_k", json!(sk));
+        let snassign: Mutex<HashMap<String, u64>> = Mutex::new(HashMap::new());
+        cx.run_cases("scratch-honest", &scases, |c| {
+            let mut out = CaseOut::batch();
+            let rep = vgad::explore_honest(c, sk, &mut out);
+            if rep.outcome == Outcome::Sat && c.0.expect_sat() {
+                snassign.lock().unwrap().insert(c.0.key(), rep.n_assign);
+            }
+            out.sample = Some(json!({"case": c.0.key(), "honest": rep.outcome.name(), "assignments": rep.n_assign}));
+            out
+        });
+        let snassign = snassign.into_inner().unwrap();
+        let mut sf: Vec<(String, (Scratch<SCase>, Vec<u64>))> = vec![];
+        let mut sp: Vec<(String, (Scratch<SCase>, Vec<(u64, u64)>))> = vec![];
+        let mut per_op: HashMap<String, usize> = HashMap::new();
+        for (key, c) in &scases {
+            let Some(n) = snassign.get(key) else { continue };
+            let cnt = per_op.entry(format!("{:?}", c.0.op)).or_default();
+            // quick: two input tuples per operation; thorough: all
+            if !tier.is_thorough() && *cnt >= 2 {
+                continue;
+            }
+            *cnt += 1;
+            let idxs: Vec<u64> = (0..*n).collect();
+            for (ci, chunk) in idxs.chunks(24).enumerate() {
+                sf.push((format!("{key}#{ci}"), (c.clone(), chunk.to_vec())));
+            }
+            if *n <= tier.pick(24u64, 48u64) && *cnt == 1 {
+                let mut pairs = vec![];
+                for i in 0..*n {
+                    for j in i + 1..*n {
+                        pairs.push((i, j));
+                    }
+                }
+                for (ci, chunk) in pairs.chunks(12).enumerate() {
+                    sp.push((format!("{key}#{ci}"), (c.clone(), chunk.to_vec())));
+                }
+            }
+        }
+        cx.run_cases("scratch-faults", &sf, |(c, idxs)| {
+            let mut out = CaseOut::batch();
+            vgad::explore_faults(c, sk, idxs, &faults, &mut out);
+            out
+        });
+        cx.run_cases("scratch-pairs", &sp, |(c, pairs)| {
+            let mut out = CaseOut::batch();
+            vgad::explore_pairs(c, sk, pairs, &f2, &mut out);
+            out
+        });
+        let _ = SOp::Bounded(1);
+    }
     let sat = cx.class_count("honest:honest:sat");
     let unsat = cx.class_count("honest:honest:unsat") + cx.class_count("honest:honest:synth-err") + cx.class_count("honest:honest:crash-unsat");
     cx.require(sat > 100 && unsat > 10, "need both satisfiable and out-of-domain cases");
